@@ -46,6 +46,11 @@ type env struct {
 	// key a handed out JWT was signed with)
 	stores    map[string]string
 	materials map[string]crypto.PublicKey
+	// be: the second server (answers without payload, key sets per caller, an authorization server issuing JWT formatted
+	// access tokens) and the keys used with it
+	be              *backends
+	tenantKeys      map[string]*ck.SigningKey
+	asKey, otherKey *ck.SigningKey
 }
 
 // ksEntry is one key of a signer key store: which key material is published under which key id.
@@ -229,8 +234,9 @@ func TestC11(t *testing.T) {
 	if dir == "" {
 		dir = t.TempDir()
 	}
-	e := &env{r: r, dir: dir, srv: ck.NewServers()}
+	e := &env{r: r, dir: dir, srv: ck.NewServers(), be: newBackends()}
 	defer e.srv.Close()
+	defer e.be.Close()
 	var err error
 	if e.pki, err = ck.NewPKI(dir); err != nil {
 		r.Inconclusive("pki: " + err.Error())
@@ -272,6 +278,9 @@ func TestC11(t *testing.T) {
 	r.Require("concurrent_overlapping_pairs_with_different_outcomes", r.Counter("concurrent_nontrivial"), 50)
 	r.Require("http_cache_authorization_shape_pairs_nontrivial", r.Counter("authorization_shape_pairs_nontrivial"), 40)
 	r.Require("trust_store_pairs_nontrivial", r.Counter("trust_store_pairs_nontrivial"), 20)
+	r.Require("silent_answer_expression_pairs_nontrivial", r.Counter("silent_answer_pairs_nontrivial"), 20)
+	r.Require("keyset_caller_pairs_nontrivial", r.Counter("keyset_caller_pairs_nontrivial"), 10)
+	r.Require("jwt_formatted_access_token_pairs_nontrivial", r.Counter("jwt_formatted_access_token_pairs_nontrivial"), 10)
 	r.End()
 }
 
@@ -425,6 +434,14 @@ func (e *env) runPair(pc pairCase) {
 				e.r.Count("authorization_shape_pairs_nontrivial", 1)
 			case "trust-store-of-other-prototype":
 				e.r.Count("trust_store_pairs_nontrivial", 1)
+			case "rule-level-expressions":
+				if strings.HasPrefix(pc.Component, "rule-level-expressions:answer-") {
+					e.r.Count("silent_answer_pairs_nontrivial", 1)
+				}
+			case "jwks-endpoint-caller-of-other-prototype":
+				e.r.Count("keyset_caller_pairs_nontrivial", 1)
+			case "credential-jwt":
+				e.r.Count("jwt_formatted_access_token_pairs_nontrivial", 1)
 			}
 		}
 		if os.Getenv("VERIF_DEBUG") != "" {
@@ -554,6 +571,14 @@ func pairSignature(pc pairCase, bad stepCmp) string {
 	case "http-authorization-shape":
 		if bad.Hit {
 			return "httpcache-entry-shared-across-authorization-values:" + format
+		}
+	case "jwks-endpoint-caller-of-other-prototype":
+		if bad.Hit {
+			return "jwk-fetched-by-other-caller-reused:" + m
+		}
+	case "credential-jwt":
+		if bad.Hit {
+			return "result-of-other-credential-reused:" + m
 		}
 	case "response-number-in-expression", "rule-level-numeric-expression", "response-list-and-object-in-expression":
 		if bad.Hit && bad.CacheOn.Err != bad.CacheOff.Err {
